@@ -126,6 +126,24 @@ class Functional(ast.NodeTransformer):
                     return c
         return None
 
+    def local_callable(self, name: str) -> ast.expr | None:
+        """The callable a local is bound to exactly once in the view (a callback parameter of an inlined helper:
+        `rule_step = methodcaller("_add_modules", modules)` ... `rule_step(rule)`): a lambda or one of the operator /
+        functools factories."""
+        stores = [n for n in ast.walk(self.view.node) if isinstance(n, ast.Name) and n.id == name and isinstance(n.ctx, ast.Store)]
+        if len(stores) != 1 or any(a.arg == name for a in ast.walk(self.view.node) if isinstance(a, ast.arg)):
+            return None
+        for n in ast.walk(self.view.node):
+            if isinstance(n, (ast.Assign, ast.AnnAssign)) and n.value is not None:
+                tgs = n.targets if isinstance(n, ast.Assign) else [n.target]
+                if any(t is stores[0] for t in tgs) and len(tgs) == 1:
+                    v = n.value
+                    if isinstance(v, ast.Lambda):
+                        return v
+                    if isinstance(v, ast.Call) and isinstance(v.func, (ast.Name, ast.Attribute)) and self.fq(v.func) in ("operator.methodcaller", "operator.attrgetter", "operator.itemgetter", "functools.partial"):
+                        return v
+        return None
+
     def fresh(self, base: str) -> str:
         name, i = base, 2
         while name in self.taken:
@@ -163,10 +181,23 @@ class Functional(ast.NodeTransformer):
             c = self.constant(f)
             if isinstance(c, (ast.Call, ast.Lambda)):
                 return self.apply(c, args, keywords, at, depth + 1)
+            c = self.local_callable(f.id)
+            if c is not None:
+                got = self.apply(_clone(c), args, keywords, at, depth + 1)
+                if got is not None and isinstance(c, ast.Lambda):
+                    c._applied = True  # type: ignore[attr-defined]  # its body now stands where it was applied
+                return got
         if isinstance(f, (ast.Name, ast.Attribute)):
             fq = self.fq(f)
             if fq is None:
                 return None
+            if isinstance(f, ast.Attribute) and args:
+                # `Class.method(obj, a)` with a class of the repo: the unbound spelling of `obj.method(a)`
+                ci = self.repo.classes.get(fq.rpartition(".")[0])
+                if ci is not None:
+                    m = self.repo.lookup_method(ci, f.attr)
+                    if m is not None and not m.is_staticmethod and not m.is_classmethod and not m.is_property:
+                        return self.at(ast.Call(func=ast.Attribute(value=args[0], attr=f.attr, ctx=ast.Load()), args=args[1:], keywords=keywords), at)
             if fq == "operator.getitem" and len(args) == 2 and not keywords:
                 return self.at(ast.Subscript(value=args[0], slice=args[1], ctx=ast.Load()), at)
             if fq in ("operator.not_",) and len(args) == 1:
